@@ -48,3 +48,9 @@ VARIANTS += [
          [(UQ13, "        if obj.subcircuit:\n            # A subcircuit block prepares and measures every qubit\n            self.merge_into(indices, self._all_qubits())\n", "")],
          ("C13.1", "visit_BlockStatement:subcircuit-implicit-gates"), ("C13",)),
 ]
+VARIANTS += [
+    # reverting fix a3b5795
+    fire("c13-resolve-size-used-as-int",
+         [(UQ13, "        size = int(obj.resolve_size())\n", "        size = obj.resolve_size()\n")],
+         ("C13.5", "visit_Register:size-as-int"), ("C13",)),
+]
